@@ -119,7 +119,19 @@ func (c *Compiler) Code() *Code {
 }
 
 // Compile the given AST node and return the compiled code object.
-func (c *Compiler) Compile(node ast.Node) (*Code, error) {
+func (c *Compiler) Compile(node ast.Node) (result *Code, err error) {
+	// A rejected input leaves the main code, its symbol table and the compiler
+	// as they were, so that compilation can go on with the next input (as in
+	// the REPL) without the rejected one having any effect
+	mainState := c.main.state()
+	funcIndex := c.funcIndex
+	defer func() {
+		if err != nil {
+			c.main.restore(mainState)
+			c.current = c.main
+			c.funcIndex = funcIndex
+		}
+	}()
 	c.failure = nil
 	if c.main.source == "" {
 		c.main.source = node.String()
